@@ -61,6 +61,9 @@ partial def toStmt : SExp → Option Stmt
   | .list [.atom "seq", a, b] => do some (.seq (← toStmt a) (← toStmt b))
   | .list [.atom "as", .atom x, e] => do some (.assign x (← toExpr e))
   | .list [.atom "aug", .atom x, .atom op, e] => do some (.aug x (← binop? op) (← toExpr e))
+  | .list [.atom "tup", .list xs, .list es] => do
+    -- `(tup (x y …) (e0 e1 …))`; the stored counter is filled in by `Prog.renum` (see `parseProg`)
+    some (.tuple 0 (← xs.mapM fun x => match x with | .atom a => some a | _ => none) (← es.mapM toExpr))
   | .list [.atom "if", c, t, e] => do some (.ifs (← toExpr c) (← toStmt t) (← toStmt e))
   | .list [.atom "while", c, b] => do some (.whileLoop (← toExpr c) (← toStmt b))
   | .list [.atom "for", .atom i, n, b] => do some (.forRange i (← toExpr n) (← toStmt b))
@@ -76,7 +79,7 @@ def toProg : SExp → Option Prog
 
 def parseProg (s : String) : Option Prog := do
   let (e, _) ← parseS (tokenize s)
-  toProg e
+  (toProg e).map Prog.renum
 
 def showEv : Ev → String
   | .write n => s!"w{n}"
